@@ -13,8 +13,18 @@ macro("DOC_AT", ["root", "rel"], "sl_ref(PARSE_ShardsList(disk_read(PJOIN(root, 
 # The representation / crash invariant of the metadata on disk (C04, C06):
 # every completely written shard-list document is valid, locally exact, knows
 # its own location, and names only completely written files
+# shape of the tree: a child list lives exactly one directory below its parent's directory,
+# and a list names each child list once
+macro("UP", ["u"], "u.shard_list_info_file.file_path")
+macro("DIROF", ["rel"], "PPREFIX(rel, NPARTS(rel) - 1)")
+macro("CHILD_PLACED", ["rel", "c"],
+      "NPARTS(UP(c)) == NPARTS(rel) + 1 and PPREFIX(UP(c), NPARTS(rel) - 1) == DIROF(rel)")
+macro("LIST_SHAPE", ["l"],
+      "forall(lambda i: implies(0 <= i and i < len(l.children_shard_lists), CHILD_PLACED(l.relative_path_self, l.children_shard_lists[i])))"
+      " and forall(lambda i, j: implies(0 <= i and i < j and j < len(l.children_shard_lists),"
+      "       UP(l.children_shard_lists[i]) != UP(l.children_shard_lists[j])))")
 macro("DOC_OK", ["root", "rel", "d"],
-      "VALID_ShardsList(d) and LEX(d) and LISTED_COMPLETE(root, d) and d.relative_path_self == rel")
+      "VALID_ShardsList(d) and LEX(d) and LISTED_COMPLETE(root, d) and d.relative_path_self == rel and LIST_SHAPE(d)")
 macro("DISK_OK", ["root"],
       "forall(lambda rel: implies(dstate(PJOIN(root, rel)) == 2 and PNAME(rel) == 'shards_list.json' and SAFE(rel),"
       "    DOC_OK(root, rel, DOC_AT(root, rel)) and allocated(DOC_AT(root, rel))), rel='U')")
@@ -24,12 +34,55 @@ macro("NOT_ON_DISK", ["root", "x"],
       "    and 0 <= i and i < len(DOC_AT(root, rel).shard_files), DOC_AT(root, rel).shard_files[i] is not x), rel='U')")
 _OTHERS_KEPT = ("forall(lambda p: implies(p != %s and old(dstate(p)) == 2, dstate(p) == 2 and disk_read(p) == old(disk_read(p))), p='U')")
 
+_R, _L = "dataset_root_path", "self.relative_path_self"
 contract(MSM, "ShardsList.write_config", props=["C04", "C06", "C08", "C16", "C17", "C20", "C05"],
     params={"dataset_root_path": "U", "hashes": "list:U"}, returns="ref:ShardListInfo",
-    modifies=["ghost:fs"], fs_root="dataset_root_path",
+    exit_lemmas=[
+        # every other (relative) path still names the same file content
+        ("C04", "forall(lambda rel: implies(rel != self.relative_path_self and not ISABS(rel), PJOIN(dataset_root_path, rel) != PJOIN(dataset_root_path, self.relative_path_self)), rel='U')"),
+        ("C04", "forall(lambda rel: implies(rel != self.relative_path_self and not ISABS(rel), dstate(PJOIN(dataset_root_path, rel)) == old(dstate(PJOIN(dataset_root_path, rel)))"
+                "   and disk_read(PJOIN(dataset_root_path, rel)) == old(disk_read(PJOIN(dataset_root_path, rel)))), rel='U')"),
+        # what the invariant said about the certified lists before the write (PRE = GINV and DISK_OK on entry;
+        # only these steps see its definition)
+        ("C04", "reveal PRE: implies(hidden('PRE', old(GINV(dataset_root_path)) and old(DISK_OK(dataset_root_path))), forall(lambda rel: implies(old(cert(dataset_root_path, rel)), old(LISTFILE(dataset_root_path, rel))), rel='U'))"),
+        ("C04", "reveal PRE: implies(hidden('PRE', old(GINV(dataset_root_path)) and old(DISK_OK(dataset_root_path))), forall(lambda rel: implies(old(cert(dataset_root_path, rel)),"
+                "   old(LIST_SHAPE(DOC_AT(dataset_root_path, rel))) and old(DOC_AT(dataset_root_path, rel).relative_path_self == rel) and old(allocated(DOC_AT(dataset_root_path, rel)))), rel='U'))"),
+        ("C04", "reveal PRE: implies(hidden('PRE', old(GINV(dataset_root_path)) and old(DISK_OK(dataset_root_path))), forall(lambda rel, k: implies(old(cert(dataset_root_path, rel)) and 0 <= k and k < old(len(DOC_AT(dataset_root_path, rel).children_shard_lists)),"
+                "   old(ENTRY_GOOD(dataset_root_path, DOC_AT(dataset_root_path, rel).children_shard_lists[k]))), rel='U'))"),
+        # an untouched certified list still parses to the same document, with the same entries
+        ("C04", "implies(hidden('PRE', old(GINV(dataset_root_path)) and old(DISK_OK(dataset_root_path))), forall(lambda rel: implies(old(cert(dataset_root_path, rel)) and rel != self.relative_path_self,"
+                "   DOC_AT(dataset_root_path, rel) is old(DOC_AT(dataset_root_path, rel)) and len(DOC_AT(dataset_root_path, rel).children_shard_lists) == old(len(DOC_AT(dataset_root_path, rel).children_shard_lists))), rel='U'))"),
+        ("C04", "implies(hidden('PRE', old(GINV(dataset_root_path)) and old(DISK_OK(dataset_root_path))), forall(lambda rel, k: implies(old(cert(dataset_root_path, rel)) and rel != self.relative_path_self and 0 <= k and k < len(DOC_AT(dataset_root_path, rel).children_shard_lists),"
+                "   DOC_AT(dataset_root_path, rel).children_shard_lists[k] is old(DOC_AT(dataset_root_path, rel).children_shard_lists[k]) and UP(DOC_AT(dataset_root_path, rel).children_shard_lists[k]) == old(UP(DOC_AT(dataset_root_path, rel).children_shard_lists[k]))), rel='U'))"),
+        ("C04", "implies(hidden('PRE', old(GINV(dataset_root_path)) and old(DISK_OK(dataset_root_path))), forall(lambda rel, k: implies(old(cert(dataset_root_path, rel)) and rel != self.relative_path_self and 0 <= k and k < len(DOC_AT(dataset_root_path, rel).children_shard_lists),"
+                "   CHILD_PLACED(rel, DOC_AT(dataset_root_path, rel).children_shard_lists[k])), rel='U'))"),
+        # a list that keeps its certificate has no entry for the written list or for a list above it
+        ("C04", "implies(hidden('PRE', old(GINV(dataset_root_path)) and old(DISK_OK(dataset_root_path))), forall(lambda rel, k: implies(old(cert(dataset_root_path, rel)) and rel != self.relative_path_self and not ANCREL(rel, self.relative_path_self)"
+                "     and 0 <= k and k < len(DOC_AT(dataset_root_path, rel).children_shard_lists), UP(DOC_AT(dataset_root_path, rel).children_shard_lists[k]) != self.relative_path_self), rel='U'))"),
+        ("C04", "implies(hidden('PRE', old(GINV(dataset_root_path)) and old(DISK_OK(dataset_root_path))), forall(lambda rel, k: implies(old(cert(dataset_root_path, rel)) and rel != self.relative_path_self and not ANCREL(rel, self.relative_path_self)"
+                "     and 0 <= k and k < len(DOC_AT(dataset_root_path, rel).children_shard_lists)"
+                "     and axinst(path_inst(self.relative_path_self, NPARTS(rel), NPARTS(rel) - 1) and path_inst(UP(DOC_AT(dataset_root_path, rel).children_shard_lists[k]), NPARTS(rel), NPARTS(rel) - 1)),"
+                "   not ANCREL(UP(DOC_AT(dataset_root_path, rel).children_shard_lists[k]), self.relative_path_self)), rel='U'))"),
+        # which lists are certified now (GD0: the others; GD1: the written one)
+        ("C04", "reveal GD0: forall(lambda rel: implies(rel != self.relative_path_self, cert(dataset_root_path, rel) == (old(cert(dataset_root_path, rel)) and not ANCREL(rel, self.relative_path_self))), rel='U')"),
+        # ... so the entries of an untouched certified list are as good as before
+        ("C04", "implies(hidden('PRE', old(GINV(dataset_root_path)) and old(DISK_OK(dataset_root_path))), forall(lambda rel, k: implies(cert(dataset_root_path, rel) and rel != self.relative_path_self and 0 <= k and k < len(DOC_AT(dataset_root_path, rel).children_shard_lists),"
+                "   INFO_EXACT(dataset_root_path, galgs(), DOC_AT(dataset_root_path, rel).children_shard_lists[k])), rel='U'))"),
+        ("C04", "implies(hidden('PRE', old(GINV(dataset_root_path)) and old(DISK_OK(dataset_root_path))), forall(lambda rel, k: implies(cert(dataset_root_path, rel) and rel != self.relative_path_self and 0 <= k and k < len(DOC_AT(dataset_root_path, rel).children_shard_lists),"
+                "   cert(dataset_root_path, UP(DOC_AT(dataset_root_path, rel).children_shard_lists[k]))), rel='U'))"),
+        ("C04", "implies(hidden('PRE', old(GINV(dataset_root_path)) and old(DISK_OK(dataset_root_path))), forall(lambda rel: implies(cert(dataset_root_path, rel) and rel != self.relative_path_self, LISTFILE(dataset_root_path, rel)), rel='U'))"),
+        # the written list: certified only if all its entries are good, and then its document has exactly these entries
+        ("C04", "reveal GD1: implies(cert(dataset_root_path, self.relative_path_self), forall(lambda k: implies(0 <= k and k < len(self.children_shard_lists),"
+                "   ENTRY_GOOD(dataset_root_path, self.children_shard_lists[k]))))"),
+        ("C04", "implies(cert(dataset_root_path, self.relative_path_self), LISTFILE(dataset_root_path, self.relative_path_self) and forall(lambda k: implies(0 <= k and k < len(DOC_AT(dataset_root_path, self.relative_path_self).children_shard_lists),"
+                "   ENTRY_GOOD(dataset_root_path, DOC_AT(dataset_root_path, self.relative_path_self).children_shard_lists[k]))))"),
+        ("C04", "implies(hidden('PRE', old(GINV(dataset_root_path)) and old(DISK_OK(dataset_root_path))), GINV(dataset_root_path))"),
+    ],
+    modifies=["ghost:fs", "ghost:cert"], fs_root="dataset_root_path",
     fs_effects=[("PJOIN(dataset_root_path, self.relative_path_self)", None)],
     requires=["VALID_ShardsList(self)",
-              ("C06", "LISTED_COMPLETE(dataset_root_path, self)")],
+              ("C06", "LISTED_COMPLETE(dataset_root_path, self)"),
+              ("C04", "LIST_SHAPE(self)")],
     ensures=[
         ("C04", "result.number_of_examples == self.number_of_examples"),
         ("C04", "result.number_of_shards == len(self.shard_files) + lsum(self.children_shard_lists, 'number_of_shards')"),
@@ -43,6 +96,15 @@ contract(MSM, "ShardsList.write_config", props=["C04", "C06", "C08", "C16", "C17
         "fresh(result) and fresh(result.shard_list_info_file)",
         # A-PYD: the document now on disk parses to a (ghost) object of its own: not any object that existed before
         "fresh(DOC_AT(dataset_root_path, self.relative_path_self))",
+        # ghost label update (definition): lists above the written one lose their certificate,
+        # the written one is certified iff every child entry is exact and certified
+        "hide CERTDEF: ghostdef: forall(lambda q: implies(q != self.relative_path_self,"
+        "   cert(dataset_root_path, q) == (old(cert(dataset_root_path, q)) and not ANCREL(q, self.relative_path_self))), q='U')",
+        "hide CERTDEF: ghostdef: cert(dataset_root_path, self.relative_path_self) == forall(lambda k: implies(0 <= k and k < len(self.children_shard_lists),"
+        "   ENTRY_GOOD(dataset_root_path, self.children_shard_lists[k])))",
+        "hide CERTDEF: ghostdef: forall(lambda r, q: implies(r != dataset_root_path, cert(r, q) == old(cert(r, q))), r='U', q='U')",
+        # C04: the representation invariant of the certified part survives the write
+        ("C04", "reveal PRE: hide GINVKEEP: implies(old(GINV(dataset_root_path)) and old(DISK_OK(dataset_root_path)), GINV(dataset_root_path))"),
     ])
 
 contract(MSM, "ShardsList.load_or_create", props=["C04", "C08", "C17", "C06", "C20"],
@@ -54,6 +116,7 @@ contract(MSM, "ShardsList.load_or_create", props=["C04", "C08", "C17", "C06", "C
         "fresh(result)",
         # the disk invariant carries over to the loaded copy
         (["C04", "C06"], "VALID_ShardsList(result) and LEX(result) and LISTED_COMPLETE(dataset_root_path, result) and result.relative_path_self == relative_path_self"),
+        ("C04", "LIST_SHAPE(result)"),
         # C08: an existing list is loaded (extended later), never recreated
         (["C08", "C04"], "implies(dstate(PJOIN(dataset_root_path, relative_path_self)) == 2, SL_SAME(result, DOC_AT(dataset_root_path, relative_path_self)))"),
         ("C08", "implies(dstate(PJOIN(dataset_root_path, relative_path_self)) != 2,"
@@ -119,6 +182,7 @@ contract(MS_, "Shard.close", props=["C10", "C04", "C16", "C06", "C05"],
 # of its own directory
 macro("LIST_OK", ["c", "s"],
       "VALID_ShardsList(c._shards_lists[s]) and LEX(c._shards_lists[s]) and LISTED_COMPLETE(c._dataset_root_path, c._shards_lists[s])"
+      " and LIST_SHAPE(c._shards_lists[s])"
       " and c._shards_lists[s].relative_path_self == PJOIN(PJOIN(s, c._relative_path_from_split), 'shards_list.json')")
 macro("CTX_LISTS_OK", ["c"],
       "forall(lambda s: implies(s in c._shards_lists, LIST_OK(c, s)), s='U')"
@@ -141,7 +205,7 @@ contract(MF, CTX + ".close_shard", props=["C10", "C04", "C06", "C08", "C18", "C1
               # only the list of this split (if it is already in use; otherwise a new object) changes
               "ShardsList.shard_files@ite(split in self._shards_lists, self._shards_lists[split], nullref('ShardsList'))",
               "ShardsList.number_of_examples@ite(split in self._shards_lists, self._shards_lists[split], nullref('ShardsList'))",
-              "ghost:fs"],
+              "ghost:fs", "ghost:cert"],
     # file-system effect: the shard file, then (if progress is saved) the list file of this directory
     fs_effects=[("SHARD_PATH(shard)", None),
                 ("PJOIN(self._dataset_root_path, PJOIN(PJOIN(split, self._relative_path_from_split), 'shards_list.json'))", None, "self._write_updates")],
@@ -272,6 +336,21 @@ macro("INFO_EXACT", ["root", "algs", "info"],
       " and LEX(DOC_AT(root, info.shard_list_info_file.file_path))"
       " and LISTED_COMPLETE(root, DOC_AT(root, info.shard_list_info_file.file_path))")
 
+# ---- the certified part of the tree (ghost label CERT, flat representation invariant) ----
+# cert(root, rel) is a ghost label on list files.  GINV: every certified list file is complete
+# and every child entry of its document is exact for the child file (galgs() = the dataset's
+# digest algorithms) and names a certified list.  Writing a list file un-certifies the lists
+# in the directories above it (their entry for it is stale now) and certifies the written
+# list iff all ITS entries are good.  With LIST_SHAPE (children one level below) the
+# certified lists reachable from a certified root form an exact tree (A-LEMMA-TREE).
+macro("LISTFILE", ["root", "rel"], "dstate(PJOIN(root, rel)) == 2 and PNAME(rel) == 'shards_list.json' and SAFE(rel)")
+macro("ANCREL", ["rel", "l"], "PNAME(rel) == 'shards_list.json' and NPARTS(rel) < NPARTS(l) and PPREFIX(l, NPARTS(rel) - 1) == DIROF(rel)")
+macro("ENTRY_GOOD", ["root", "c"], "INFO_EXACT(root, galgs(), c) and cert(root, UP(c))")
+macro("GINV", ["root"],
+      "forall(lambda rel: implies(cert(root, rel), LISTFILE(root, rel)"
+      "   and forall(lambda k: implies(0 <= k and k < len(DOC_AT(root, rel).children_shard_lists),"
+      "        ENTRY_GOOD(root, DOC_AT(root, rel).children_shard_lists[k])))), rel='U')")
+
 contract(MF, CTX + ".shard_lists", props=["C04", "C09"], params={}, returns="dict:ref:ShardsList",
     modifies=[], property=True, ensures=["result is self._shards_lists"], verify=False, assumed=True,
     note="one-line getter (return self._shards_lists); compared textually by tools/check_classes.py")
@@ -319,7 +398,7 @@ macro("FCTX", ["f"], "f._dataset_filler_context")
 contract(MF, MFD + "._update_infos", props=["C04", "C06", "C09", "C16", "C05"], params={},
     requires=["len(self._updated_infos) == 0", "CTX_LISTS_OK(FCTX(self))",
               "FCTX(self)._dataset_root_path == self._dataset.path", "DISK_OK(self._dataset.path)"],
-    modifies=["DatasetFiller._updated_infos@self", "ghost:fs"],
+    modifies=["DatasetFiller._updated_infos@self", "ghost:fs", "ghost:cert"],
     at_call={"write_config": [
         # C16: list files are hashed with the dataset's configured algorithms
         ("C16", "callee_hashes == ALGS(self._dataset)"),
@@ -359,7 +438,7 @@ contract(MW, "DatasetWriting.write_config", props=["C04", "C05", "C06", "C08", "
         # every update is exact for a completely written list file (C06: lists before the description)
         "forall(lambda j: implies(0 <= j and j < len(updated_infos), INFO_EXACT(self.path, ALGS(self), updated_infos[j])))",
     ],
-    modifies=["DatasetInfo.splits", "ghost:fs"],
+    modifies=["DatasetInfo.splits", "ghost:fs", "ghost:cert"],
     ensures=[
         "DS_WF(self)", "DISK_OK(self.path)",
         # C08: untouched splits keep their entry
@@ -393,7 +472,7 @@ contract(MF, MFD + ".__exit__", props=["C10", "C04", "C06", "C09", "C08"],
               "forall(lambda s: implies(s in FCTX(self)._shards_lists, SAFE(s) and PART(s, 0) == s), s='U')"],
     modifies=["Shard._shard_writer", "Writer.closed", "FileInfo.hash_checksums",
               "_DatasetFillerContext._shards_lists", "ShardsList.shard_files", "ShardsList.number_of_examples",
-              "DatasetFiller._updated_infos@self", "DatasetInfo.splits", "ghost:fs"],
+              "DatasetFiller._updated_infos@self", "DatasetInfo.splits", "ghost:fs", "ghost:cert"],
     at_call={
         # C10: __exit__ closes exactly the open shards that hold at least one example
         "close_shard": [("C10", "callee_shard.shard_info.number_of_examples >= 1")],
